@@ -1,14 +1,18 @@
 package main
 
-import "strings"
+import (
+	"strings"
+
+	"golang.org/x/tools/go/ssa"
+)
 
 func init() {
 	register(&Property{
-		ID:    "C19",
-		Level: "other",
-		Run:   c19,
+		ID:          "C19",
+		Level:       "other",
+		Run:         c19,
 		Explanation: "All four clauses of the property are control-flow facts of http/proxy_server.go and are decided on every path of the SSA control-flow graph: (1) the upstream application is reached only through proxyToTarget, which is called only from the three dispatch functions; (2) request classification: passthrough only under isPassthrough, serveRead only for GET/HEAD not matching always-forward (decided by path enumeration with per-path phi resolution of the isReadOnly boolean), everything else serveNonRead; (3) in serveNonRead the upstream call is dominated by the isPrimary result being true, the no-primary branch answers 503, the replica branch only sets fly-replay; (4) in serveRead the upstream call is dominated by txid==0, no database, or leaving the wait loop through pos.TXID >= txid with txid originating from the __txid cookie, and the time-out branch cannot reach it; (5) the cookie value is a position read after RoundTrip returned, only for non-passthrough write requests.",
-		NotDecided: "that the application's write has committed (and reached the tracked database) by the time it answers; real network timing.",
+		NotDecided:  "that the application's write has committed (and reached the tracked database) by the time it answers; real network timing.",
 		Assumptions: []string{"net/http delivers each request to ProxyServer.serveHTTP exactly once", "go/ssa faithfully represents the source"},
 	})
 }
@@ -88,4 +92,51 @@ func c19(c *Ctx) {
 	}
 	c.ExpectAll("cookie/iswrite-def", []string{strings.Join(c.returnsOf("http.(*ProxyServer).isWriteRequest"), ";")}, pat(`phi((p1.Method != "HEAD")|false)`), 1,
 		"isWriteRequest is 'method is neither GET nor HEAD'", "the complement of the read classification")
+
+	// ---- classification is by path only; response headers are appended, never replaced ----
+	for _, f := range []string{"http.(*ProxyServer).isPassthrough", "http.(*ProxyServer).isAlwaysForwarded"} {
+		short := f[strings.LastIndex(f, ".")+1:]
+		c.ExpectAll("classify/"+short+"/matches-path", c.CallArgs(f, p.Calls("regexp.(*Regexp).MatchString"), 1), pat("p1.URL.Path"), 1, short+" matches its patterns against the request path only", "matching the query string as well lets a request choose its own classification: a write with ?x=logo.png is run on the replica as a 'passthrough'")
+	}
+	{
+		ptt := "http.(*ProxyServer).proxyToTarget"
+		fn := c.F(ptt)
+		key, rule := "cookie/headers-appended", "K5/K4 (header copy after the cookie)"
+		desc := "after the transaction-ID cookie was set, the application's response headers are only appended (Header.Add); no header list is replaced or deleted"
+		if c.need(key, rule, desc, fn, ptt) {
+			bad := ""
+			n := 0
+			setCookie := Instrs(fn, p.Calls("net/http.SetCookie"))
+			overwrite := func(in ssa.Instruction) bool {
+				switch x := in.(type) {
+				case *ssa.MapUpdate:
+					return strings.Contains(p.Render(x.Map), "ResponseWriter.Header(p1)")
+				case *ssa.Call:
+					n := p.CalleeName(&x.Call)
+					if n == "net/http.(Header).Set" || n == "net/http.(Header).Del" {
+						return strings.Contains(c.argR(in, 0), "ResponseWriter.Header(p1)")
+					}
+					if n == "builtin.delete" {
+						return strings.Contains(c.argR(in, 0), "ResponseWriter.Header(p1)")
+					}
+				}
+				return false
+			}
+			for range setCookie {
+				n++
+			}
+			if f := (&Search{P: p, Fn: fn, From: setCookie, Tgt: overwrite}).Run(); f != nil {
+				bad = "header list replaced at " + c.where(f.Instr) + " after the cookie was set"
+			}
+			adds := Instrs(fn, p.Calls("net/http.(Header).Add"))
+			if len(adds) == 0 {
+				bad = "the response headers are not copied with Header.Add"
+			}
+			if bad != "" || n == 0 {
+				c.fail(key, rule, desc, "the application's own Set-Cookie would replace the proxy's __txid cookie: the client keeps a stale transaction ID and reads from a replica that has not applied its write", bad, n)
+			} else {
+				c.ok(key, rule, desc, n+len(adds))
+			}
+		}
+	}
 }
